@@ -124,7 +124,26 @@ def lib_HMS_IsValid (hms : GoSem.HMS) : Option Bool := do
 def lib_Date_IsValid (date : GoSem.Date) : Option Bool := do
   pure ((((decide ((date).Month > 0)) && (decide ((date).Month < 13))) && (decide ((date).Day > 0))) && (decide ((date).Day < 40)))
 
--- NOT TRANSLATED: interval_Less (interval/interval.go:356): unary operator &
+/-- interval/interval.go:171 -/
+def interval_Less (p : (List interval_IntervalPoint)) (i : Int) (j : Int) : Option Bool := do
+  let a ← (GoSem.idxA p i)
+  let b ← (GoSem.idxA p j)
+  if (decide ((a).Pos ≠ (b).Pos)) then
+    pure (decide ((a).Pos < (b).Pos))
+  else
+    if ((a).IsEnd != (b).IsEnd) then
+      pure (b).IsEnd
+    else
+      if ((a).Closed != (b).Closed) then
+        if (a).IsEnd then
+          pure (b).Closed
+        else
+          pure (a).Closed
+      else
+        if (decide ((a).ListId ≠ (b).ListId)) then
+          pure (decide ((a).ListId < (b).ListId))
+        else
+          pure false
 
 /-- cal_types/julian/julian.go:114 -/
 def julian_IsLeap (year : Int) : Option Bool := do
@@ -508,6 +527,6 @@ def hijri_GetMonthLen (year : Int) (month : Int) : Option Int := do
       pure 29
 
 /-- the functions translated on this run -/
-def translated : List String := ["utils_Mod", "utils_Div", "utils_Divmod", "utils_IntMin", "utils_GetHmsBySeconds", "utils_MonthListIsValid", "utils_DayListIsValid", "utils_WeekDayListIsValid", "lib_GetTotalSeconds", "lib_GetFloatHour", "lib_FloatHourToHMS", "lib_toUint8", "lib_HMS_IsValid", "lib_Date_IsValid", "julian_IsLeap", "julian_getYearDays", "julian_getMonthDayFromYdays", "julian_ToJd", "julian_JdTo", "julian_GetMonthLen", "jalali_IsLeap", "jalali_getMonthDayFromYdays", "jalali_ToJd", "jalali_JdTo", "jalali_GetMonthLen", "ethiopian_IsLeap", "ethiopian_ToJd", "ethiopian_JdTo", "ethiopian_GetMonthLen", "gprol_IsLeap", "gprol_ToJd", "gprol_JdTo", "gprol_GetMonthLen", "indian_IsLeap", "indian_ToJd", "indian_JdTo", "indian_GetMonthLen", "hijri_IsLeap", "hijri_ToJd", "hijri_JdTo", "hijri_GetMonthLen"]
+def translated : List String := ["utils_Mod", "utils_Div", "utils_Divmod", "utils_IntMin", "utils_GetHmsBySeconds", "utils_MonthListIsValid", "utils_DayListIsValid", "utils_WeekDayListIsValid", "lib_GetTotalSeconds", "lib_GetFloatHour", "lib_FloatHourToHMS", "lib_toUint8", "lib_HMS_IsValid", "lib_Date_IsValid", "interval_Less", "julian_IsLeap", "julian_getYearDays", "julian_getMonthDayFromYdays", "julian_ToJd", "julian_JdTo", "julian_GetMonthLen", "jalali_IsLeap", "jalali_getMonthDayFromYdays", "jalali_ToJd", "jalali_JdTo", "jalali_GetMonthLen", "ethiopian_IsLeap", "ethiopian_ToJd", "ethiopian_JdTo", "ethiopian_GetMonthLen", "gprol_IsLeap", "gprol_ToJd", "gprol_JdTo", "gprol_GetMonthLen", "indian_IsLeap", "indian_ToJd", "indian_JdTo", "indian_GetMonthLen", "hijri_IsLeap", "hijri_ToJd", "hijri_JdTo", "hijri_GetMonthLen"]
 
 end Starcal.Gen.Src
